@@ -8,8 +8,8 @@ SPEC = dict(
          '(trust) signer {chains to anchor, rogue CA, other e-mail} x configured anchor {good, rogue, none} x constraint set {none, matching, mismatching, two matching, one of two mismatching}, signature swapped between files; '
          '(flip) every single-bit change of a small signed file; (lookup) ALL publication-time sequences up to a length over times {1..5} x query times 0..6 and none x every lookup function, certificate ids present / absent / altered / prefix / extended. '
          'Oracle: reference structure rule, offset of the signature record, reference trust decision, reference scan.',
-    bounds=dict(quick='record sequences len<=4 (1555 x variants); bit flips: 2 bits per byte of the file; publication-time sequences len<=3',
-                thorough='record sequences len<=5; every bit of the file; publication-time sequences len<=4'),
+    bounds=dict(quick='record sequences len<=5 (9331 x variants); bit flips: 2 bits per byte of the file; publication-time sequences len<=3',
+                thorough='record sequences len<=6; every bit of the file; publication-time sequences len<=4'),
     technique='bounded-exhaustive enumeration of record sequences, trust configurations, bit flips and lookup tables against a reference structure rule / trust decision / scan',
     level_text='Every record sequence up to the bound, every trust configuration in the matrix, every (thorough) single-bit change of a signed file and every small lookup table is run through the real parser, PKI verification (OpenSSL) and lookup functions and compared with an independent reference. The property is a conjunction of input/output relations over small structured inputs; complete enumeration within the bound decides it.',
     level_note='Trusted: OpenSSL X.509/PKCS#7 primitives (used both to build the test PKI and by the SDK), reference model. Unknown NON-critical top-level records are treated as statement-silent (either verdict accepted).',
